@@ -867,7 +867,11 @@ FirstSendAfter(n, o, since) ==
   IN IF S = {} THEN since ELSE Rec[Min(S)].t
 TrSilentEnd ==
   /\ IsEvent("obs.silent_end")
-  /\ (Cur.t - FirstSendAfter(N, Cur.other, Cur.since) >= idle[N] + 2000) => ~Cur.listed
+  \* (both ways of counting must have run out: the cut + one effective keep-alive + idle, and the first
+  \* send after the cut + idle; where probes went unanswered shortly before, QUIC stretches the period
+  \* to three probe timeouts - see Late - which the first bound's keep-alive term has so far covered)
+  /\ (/\ Cur.t - FirstSendAfter(N, Cur.other, Cur.since) >= idle[N] + 2000
+      /\ Cur.t - Cur.since >= idle[N] + EffKa(N, Cur.other) + 2000) => ~Cur.listed
   /\ UNCHANGED <<vars, pendEv, conns, tasks, spawnQ, nextTick, phase, subs, subPos, addrNode,
                  lastAdd, replies, closeT, faultT, idle, ka, runStart, lastSend, quietLen,
                  callListed, pathOut, pathIn, closingH, beginT, shutIdle>>
